@@ -47,6 +47,14 @@ def dispatchWF (op : String) (args : List String) : Option String :=
       | none => "absent" | some none => "null" | some (some s) => showCps s
     let (s, e) := addPeriod (parseCps m) (optField a) (optField b)
     some (show2 s ++ "\t" ++ show2 e)
+  -- periodvalue <type> <timex> <mod> <start|?> <end|?> -> none | type~timex~start~end (a field: `absent` | cps): `periodValue`,
+  -- the value a period slot contributes (audit item 35: no correspondence op; tied to `_generate_from_resolution` in c11)
+  | "periodvalue", [t, x, m, a, b] =>
+    some (match periodValue (parseCps t) (parseCps x) (parseCps m) (optField a) (optField b) with
+      | none => "none"
+      | some v =>
+        let f (o : Option Str) : String := match o with | none => "absent" | some s => showCps s
+        "~".intercalate [showCps v.type, showCps v.timex, f v.start, f v.stop])
   | "dettype", [t, m] => some (showCps (determineType (parseCps t) (m == "1")))
   | "ressingle", [t, x, p, f] => some (";".intercalate ((resolveSingle (parseCps t) (parseCps x) (parseCps p) (parseCps f)).map
       fun v => showCps (v.value.getD [])))
